@@ -75,7 +75,13 @@ def check(prog: Program, tier: str) -> Result:
     _r4_m(prog, res)
     _r4_n(prog, res)
     _r4_o(prog, res)
-    res.floors.update({"R4.o": 2, "R4.n": 2, "R4.m": 2, "R4.a": 25, "R4.b": 200, "R4.c": 4, "R4.d": 18, "R4.e": 8, "R4.f": 40, "R4.h": 2, "R4.i": 2, "R4.j": 5, "R4.k": 1})
+    # R4.p: arithmetic / ordering on the value of a matched constant raises TypeError inside the formatter for 'a' or None
+    # unless the selecting template pins the value type - decided by the C17 check (R17.9), adopted
+    from . import c17 as _c17
+    _tmp = Result("C17", "", "")
+    _c17._r17_9(prog, _tmp)
+    res.adopt(_tmp, {"R17.9"}, "R4.p", "an unpinned constant can be a str or None: the operation raises TypeError out of the rule and out of format_code")
+    res.floors.update({"R4.p": 3, "R4.o": 2, "R4.n": 2, "R4.m": 2, "R4.a": 25, "R4.b": 200, "R4.c": 4, "R4.d": 18, "R4.e": 8, "R4.f": 40, "R4.h": 2, "R4.i": 2, "R4.j": 5, "R4.k": 1})
     return res
 
 
